@@ -1286,8 +1286,20 @@ pub fn write_report(
     log: &dyn Log,
     groups: &[FileGroup<FileInfo>],
 ) -> io::Result<()> {
-    let now = Local::now();
+    write_report_with_timestamp(config, log, groups, Local::now())
+}
 
+/// Like [`write_report`], but stamps the report with the given time.
+///
+/// The dedupe commands refuse to touch files modified after the report timestamp, so the
+/// timestamp should be the time when grouping *started*: a file modified while grouping
+/// was in progress (after it has been read) must look newer than the report.
+pub fn write_report_with_timestamp(
+    config: &GroupConfig,
+    log: &dyn Log,
+    groups: &[FileGroup<FileInfo>],
+    now: DateTime<Local>,
+) -> io::Result<()> {
     let total_count = file_count(groups.iter());
     let total_size = total_size(groups.iter());
 
